@@ -729,6 +729,27 @@ impl LiveNode {
             }
         }
 
+        // ---- sync requests: the helper re-sends exactly the block stored under the requested digest ----
+        if let Some(ConsensusMessage::SyncRequest(d, origin)) = delivered {
+            let replies: Vec<&Block> = Vec::new();
+            let _ = replies;
+            let mut answered = false;
+            for f in &frames {
+                if let Ok(ConsensusMessage::Propose(b)) = bincode::deserialize::<ConsensusMessage>(&f.bytes) {
+                    if b.author != my_name || Some(f.dst.port().wrapping_sub(CONSENSUS_PORT0) as usize) == w.index_of(origin) {
+                        if b.digest() == *d {
+                            answered = true;
+                        } else if own_proposals.iter().all(|p| p.digest() != b.digest()) {
+                            find("C07", "helper:wrong-block".into(), format!("n{} answered a sync request for {} with block {}", me, short(d), short(&b.digest())));
+                        }
+                    }
+                }
+            }
+            if pre_stored.contains(d) && w.index_of(origin).is_some() && !answered {
+                find("C07", "helper:no-reply".into(), format!("n{} holds block {} but did not answer a committee member's sync request for it", me, short(d)));
+            }
+        }
+
         // clean the reference aggregators like the code documents (rounds below the current one)
         let cur = post.round;
         self.hist.ref_votes.retain(|(r, _), _| *r >= cur);
